@@ -4,7 +4,8 @@ From Slug Require Import Base.Str Base.PathAlg FS.FS Slug.Unpack.
 Export Str FS Unpack.
 
 Inductive case :=
-| CUnpack (is_root : bool) (init : node) (dst : str) (es : list entry) (r : ures) (final : node).
+| CUnpack (is_root : bool) (init : node) (dst : str) (es : list entry) (r : ures) (final : node)
+| CUnpackA (is_root : bool) (allow : list str) (init : node) (dst : str) (es : list entry) (r : ures) (final : node).
 
 Definition ures_eqb (a b : ures) : bool :=
   match a, b with
@@ -49,6 +50,9 @@ Definition check (c : case) : bool :=
   match c with
   | CUnpack is_root init dst es r final =>
       let '(fs', r') := unpack is_root [] init dst es in
+      ures_eqb r r' && node_agree 64 fs' final
+  | CUnpackA is_root allow init dst es r final =>
+      let '(fs', r') := unpack is_root allow init dst es in
       ures_eqb r r' && node_agree 64 fs' final
   end.
 
